@@ -114,6 +114,20 @@ pub fn test_bytes(b: &[u8], texts: &[String], trailing: &[u8], full_faults: bool
     let (m2, rest) = Model::read_slice(&joined).map_err(|e| format!("read_slice: {e}"))?;
     ensure_eq!(rest, trailing, "read_slice rest");
     ensure!(m2.to_vec().map_err(|e| e.to_string())? == b, "read_slice model re-serialises differently");
+    // several models back to back in one buffer (what the returned rest is for), and single
+    // bytes that look like markers
+    if b.len() < 4_000_000 {
+        let twice = [b, b, trailing].concat();
+        let (_, r1) = Model::read_slice(&twice).map_err(|e| format!("read_slice (two models in one buffer): {e}"))?;
+        ensure!(r1 == &twice[b.len()..], "rest after the first of two models has {} bytes instead of {}", r1.len(), twice.len() - b.len());
+        let (_, r2) = Model::read_slice(r1).map_err(|e| format!("read_slice (second of two models): {e}"))?;
+        ensure_eq!(r2, trailing, "rest after the second of two models");
+        for x in [0u8, 1, 2, 0x0a, 0xff] {
+            let one = [b, &[x][..]].concat();
+            let (_, r) = Model::read_slice(&one).map_err(|e| format!("read_slice (+ one byte {x:#04x}): {e}"))?;
+            ensure_eq!(r, &[x][..], "rest after a model followed by the single byte {x:#04x}");
+        }
+    }
     let m3 = Model::read(FaultyReader { data: &joined, pos: 0, chunk: 1 + b.len() % 3, fail_after: None })
         .map_err(|e| format!("read from a short-read reader: {e}"))?;
     ensure!(m3.to_vec().map_err(|e| e.to_string())? == b, "model read in small chunks differs");
